@@ -21,7 +21,12 @@ type BodyEncoder func(body any) ([]byte, error)
 
 var bodyEncodersM sync.RWMutex
 var bodyEncoders = map[string]BodyEncoder{
-	"application/json": json.Marshal,
+	"application/json":            json.Marshal,
+	"application/json-patch+json": json.Marshal,
+	"application/ld+json":         json.Marshal,
+	"application/hal+json":        json.Marshal,
+	"application/vnd.api+json":    json.Marshal,
+	"application/problem+json":    json.Marshal,
 }
 
 // RegisterBodyEncoder enables package-wide decoding of contentType values
